@@ -186,6 +186,25 @@ def check(ctx):
     fl = [t for t, _, _ in rb.calls if is_call(t, "jax.lax.fori_loop")]
     ok_loop_b = (len(fl) == 1 and gen and kw(fl[0], "lower", 0) == c(0)
                  and kw(fl[0], "upper", 1) == ("call", ("n", "len"), (gen[0],), ()))
+    # the step is applied: position <- apply_updates(position, optimizer.update(grad, ...))
+    ok_step = False
+    if len(gcalls) == 1:
+        vp = n(fb.params()[1])
+        pos_t = ("s", vp, c("position"))
+        upd = [t for t, _, _ in rfb.calls if t[0] == "call" and t[1][0] == "a"
+               and t[1][2] == "update" and t[2][:1] == (gcalls[0],)]
+        sts_ = {loc: v for loc, v, _, _ in rfb.stores}
+        if len(upd) == 1:
+            want_pos = ("call", ("g", "optax.apply_updates"), (pos_t, ("proj", upd[0], 0)), ())
+            ok_step = (sts_.get(pos_t) == want_pos
+                       and sts_.get(("s", vp, c("opt_state"))) == ("proj", upd[0], 1)
+                       and kw(upd[0], "state", 1) == ("s", vp, c("opt_state"))
+                       and kw(gcalls[0], "position", 0) == pos_t
+                       and rfb.ret() == vp)
+    ctx.ob("C20.R1", fb, "every batch moves the position: the gradient at the current "
+                         "position on that batch goes through optimizer.update and "
+                         "apply_updates, and position and optimiser state are written back",
+           ok_step, stmt="optimiser step applied")
     ctx.ob("C20.R1", body, "one gradient step per batch: step i uses batches[i], for i = 0 .. "
                            "len(batches) - 1", ok_use and ok_loop_b,
            detail=f"gradient batch {short(kw(gcalls[0], 'batch_indices', 1) or ()) if gcalls else None}",
@@ -279,6 +298,34 @@ def check(ctx):
                    and t[2][0] == ("g", "jax.numpy.nan"))
         ctx.ob("C20.R3", of, "training loss, validation loss and position histories are all "
                              "padded", npad >= 3, detail=f"{npad} padded histories")
+        # per history: padded unconditionally (positions: iff recorded), pruned iff requested
+        if val is not None and bound is not None:
+            hist = ("s", val, c("history"))
+            pad_sl = ("slice", bound, c(None), c(None))
+            cut_sl = ("slice", c(None), bound, c(None))
+            PH, SP = (n("prune_history"), True), (n("save_position_history"), True)
+            status = {}
+            for hk in ("loss_train", "loss_validation"):
+                loc_ = ("s", hist, c(hk))
+                sts = [(v, [(a, p_) for a, p_ in cond if a[0] != "inloop"])
+                       for loc, v, _, cond in ro.stores if loc == loc_]
+                padded = ("call", ("a", ("s", ("a", loc_, "at"), pad_sl), "set"),
+                          (("g", "jax.numpy.nan"),), ())
+                status[hk] = sts == [(padded, []), (("s", padded, cut_sl), [PH])]
+            pitems = ("iter", ("call", ("a", ("s", hist, c("position")), "items"), (), ()))
+            ploc = ("s", ("s", hist, c("position")), ("proj", pitems, 0))
+            pv = ("proj", pitems, 1)
+            psts = [(v, [(a, p_) for a, p_ in cond if a[0] != "inloop"])
+                    for loc, v, _, cond in ro.stores if loc == ploc]
+            ppad = ("call", ("a", ("s", ("a", pv, "at"), ("tuple", (pad_sl, c(Ellipsis)))), "set"),
+                    (("g", "jax.numpy.nan"),), ())
+            pcut = ("s", pv, ("tuple", (cut_sl, c(Ellipsis))))
+            status["position"] = psts == [(ppad, [SP]), (pcut, [PH, SP])]
+            ctx.ob("C20.R3", of, "each history is NaN-padded behind the last iteration on every "
+                                 "run (the position history whenever it is recorded) and cut "
+                                 "to 0..last iteration exactly when prune_history is set",
+                   all(status.values()), detail=str(status),
+                   stmt="history padding/pruning " + str(sorted(k for k, v in status.items() if not v)))
         # loop wiring
         if val is not None:
             cf = kw(val, "cond_fun", 0)
